@@ -8,7 +8,7 @@
 From Coq Require Import ZArith Bool List.
 Import ListNotations.
 Require Import TC.Base.Map TC.Store.Stores TC.Store.AbsMap TC.Store.Refine TC.Limiter.Arith TC.Limiter.KeyStep TC.Limiter.KeyLemmas
-  TC.Limiter.Limiter TC.Limiter.Abstract TC.Limiter.Project TC.Limiter.Window TC.Limiter.Decide TC.Limiter.Total TC.Limiter.Top TC.Limiter.Regress.
+  TC.Limiter.Limiter TC.Limiter.Abstract TC.Limiter.Project TC.Limiter.Window TC.Limiter.Decide TC.Limiter.Total TC.Limiter.Top TC.Limiter.Regress TC.Store.NoLoss.
 Open Scope Z_scope.
 
 (* no call panics or errors, whatever the order of the timestamps (1970..2200), for every store
@@ -82,3 +82,39 @@ Theorem C17_refuted_by_stale_forget :
   ~ (w_E * (admitted_qty Z Z.eqb 0 (map snd w_hist) w_outs w_t0 (w_t0 + 9 * w_ms) - 2) <= 9 * w_ms + w_J).
 Proof. exact stale_forget_refutes_bound. Qed.
 Print Assumptions C17_refuted_by_stale_forget.
+
+(* The class of the known finding is its CAUSE, not its symptom.  For every built-in store started with an empty table
+   and every operation sequence in ANY timestamp order: if the last successful write of a key left (v, ex) - the ghost map
+   of NoLoss.v, never cleaned, records it together with the latest timestamp [m] carried by a write made after it - and a
+   lookup stamped now < ex finds nothing (a stale-forget event), then some LATER write carried a timestamp t >= ex > now.
+   A live entry never disappears in any other way: the "lost" events the harness watches for are outside the behaviour of
+   the modelled stores, so excusing only stale-forget events proper cannot hide a store that drops live entries. *)
+Theorem C17_stale_forget_only_after_later_stamp :
+  forall (K : Type) (keqb : K -> K -> bool), (forall a b, reflect (a = b) (keqb a b)) ->
+  forall (s0 : store K) (ops : list (bool * sop K)) (k : K) (v ex : Z) (m : option Z) (now : Z),
+  sdata K s0 = [] ->
+  lookup keqb (snd (grun K keqb s0 [] ops)) k = Some (v, ex, m) ->
+  now < ex ->
+  d_get K keqb (sdata K (fst (srun K keqb s0 ops))) k now = None ->
+  exists t, m = Some t /\ now < ex <= t.
+Proof. exact no_silent_loss. Qed.
+Print Assumptions C17_stale_forget_only_after_later_stamp.
+
+(* and what a lookup does return is always the last successful write of that key, still alive at the lookup's stamp *)
+Theorem C17_lookup_shows_last_write :
+  forall (K : Type) (keqb : K -> K -> bool), (forall a b, reflect (a = b) (keqb a b)) ->
+  forall (s0 : store K) (ops : list (bool * sop K)) (k : K) (v now : Z),
+  sdata K s0 = [] ->
+  d_get K keqb (sdata K (fst (srun K keqb s0 ops))) k now = Some v ->
+  exists ex m, lookup keqb (snd (grun K keqb s0 [] ops)) k = Some (v, ex, m) /\ now < ex.
+Proof. exact table_shows_last_write. Qed.
+Print Assumptions C17_lookup_shows_last_write.
+
+(* non-vacuity: the canonical two-write history produces exactly such an event, witnessed by the write stamped 110 *)
+Theorem C17_stale_forget_event_exists :
+  let ops := [(false, SetNX 1 7 2 100); (false, SetNX 2 8 50 110)] in
+  let r := grun Z Z.eqb (periodic_new 0 0) [] ops in
+  lookup Z.eqb (snd r) 1 = Some (7, 102, Some 110) /\
+  d_get Z Z.eqb (sdata Z (fst (srun Z Z.eqb (periodic_new 0 0) ops))) 1 101 = None /\ 101 < 102 <= 110.
+Proof. exact stale_forget_happens. Qed.
+Print Assumptions C17_stale_forget_event_exists.
